@@ -55,6 +55,7 @@ type Event struct {
 	Minted [][]int64 // EvExit: serials per leaf result
 	CB     *CBObs    // EvCallback
 	Depth  int       // number of stubs open when logged
+	Nest   int       // > 0: logged inside a nested request issued by user code
 }
 
 // CBObs is what a dig callback reported.
@@ -142,6 +143,7 @@ type World struct {
 	CurOp     int
 	Execs     []int // executions started per function
 	Open      []int // functions whose body is executing (stack)
+	nest      int   // depth of nested requests issued by user code
 	Tokens    []TokInfo
 	errs      map[[2]int]*InjErr
 	faults    map[int][]Fault
@@ -198,6 +200,7 @@ func (w *World) emit(ev Event) *Event {
 	ev.Op = w.CurOp
 	ev.SimT = w.SimT
 	ev.Depth = len(w.Open)
+	ev.Nest = w.nest
 	w.Log = append(w.Log, ev)
 	return &w.Log[len(w.Log)-1]
 }
@@ -664,7 +667,7 @@ func (w *World) call(f *Func, ft reflect.Type, args []reflect.Value) []reflect.V
 			out[k] = reflect.Zero(errType)
 		}
 	}
-	if f.Reenter && f.Role != RoleInv && fault == FaultNone {
+	if f.Reenter && !(f.ReCB && f.Callback) && f.Role != RoleInv && fault == FaultNone {
 		w.reenter(f)
 	}
 	w.Open = w.Open[:len(w.Open)-1]
@@ -689,6 +692,19 @@ func (w *World) reenter(f *Func) {
 		return
 	}
 	k := lr[0].Keys[0]
+	if f.ReKey != nil {
+		// any key, from any scope (a nested demand through a different path)
+		if f.ReScope < 0 || f.ReScope >= len(w.Scopes) {
+			return
+		}
+		k, home = *f.ReKey, f.ReScope
+	}
+	if w.nest >= 3 {
+		return // user code that re-enters from inside re-entered code stops somewhere
+	}
+	saved := append([]int(nil), w.Open...)
+	w.nest++
+	defer func() { w.nest--; w.Open = saved }()
 	var p Param
 	switch {
 	case k.IsGroup():
@@ -706,10 +722,6 @@ func (w *World) reenter(f *Func) {
 	_ = err
 	nv := verdictOf(facts)
 	w.emit(Event{Kind: EvNested, Fn: f.ID, Exec: int(nv)})
-	// guard() clears the open stack when a panic escaped; restore ours
-	if facts.Escaped {
-		w.Open = append(w.Open, f.ID)
-	}
 }
 
 func (w *World) callback(fn int) dig.Callback {
@@ -727,6 +739,11 @@ func (w *World) callback(fn int) dig.Callback {
 			}
 		}
 		w.emit(Event{Kind: EvCallback, Fn: fn, CB: o})
+		if f := &w.H.Funcs[fn]; f.Reenter && f.ReCB {
+			// re-entrant callback: asks the container while the function's
+			// Call is still in progress (whatever its outcome was)
+			w.reenter(f)
+		}
 	}
 }
 
@@ -742,6 +759,9 @@ func (w *World) Fingerprint() string {
 func (e *Event) Canon() string {
 	var b strings.Builder
 	fmt.Fprintf(&b, "%d %s op=%d fn=%d ex=%d t=%d d=%d", e.Seq, e.Kind, e.Op, e.Fn, e.Exec, e.SimT, e.Depth)
+	if e.Nest > 0 {
+		fmt.Fprintf(&b, " nest=%d", e.Nest)
+	}
 	switch e.Kind {
 	case EvEnter:
 		for _, a := range e.Args {
